@@ -19,6 +19,7 @@ _T = [
     ("tampermulti",   "^TestC11_TamperMulti$",   (8, 3, 160, 60)),
     ("serialsrs",     "^TestC11_SerialSRS$",     (8, 3, 120, 50)),
     ("serialproofs",  "^TestC11_SerialProofs$",  (10, 4, 200, 80)),
+    ("serialmulti",   "^TestC11_SerialMultiProofs$", (30, 15, 600, 300)),
     ("mpc",           "^TestC11_Mpc$",           (5, 2, 60, 25)),
     ("vkreuse",       "^TestC11_VkReuse$",       (10, 4, 200, 80)),
     ("srs",           "^TestC11_SRS$",           (6, 3, 60, 25)),
@@ -57,12 +58,15 @@ PROP = dict(
         "the curve-agnostic package kzg exports only NewSRS(curveID) and the SRS/Serializable/BinaryDumper interfaces: every pairing-curve ID "
         "must yield that curve's *kzg.SRS and restore that curve's SRS from every encoding; IDs without a KZG package panic in the source "
         "but nothing is documented, so that is recorded, not asserted",
+        "the multi-point proof objects built on KZG (shplonk.OpeningProof, fflonk.OpeningProof) are round-tripped on arbitrary table shapes "
+        "(ragged, empty, nil) and arbitrary subgroup points, not only honest proofs; their soundness belongs to C17",
         "every job runs on all 7 pairing curves in both tiers (no rotation); the four core curves only get more cases",
     ],
     mandatory_all=["len:1", "len:size", "p:zero", "z:root", "z:tau", "tuple:accept", "tuple:reject", "batch>=2",
                    "honest:single", "honest:batch", "honest:multi", "frontier:single", "frontier:batch", "frontier:multi",
                    "tamper:single", "tamper:batch", "tamper:multi", "tamper:still_true", "serial:dump", "serial:MpcSetup",
-                   "serial:MpcSetup:seal", "serial:OpeningProof", "serial:BatchOpeningProof", "history:vk_reuse",
+                   "serial:MpcSetup:seal", "serial:OpeningProof", "serial:BatchOpeningProof", "serial:shplonk.OpeningProof",
+                   "serial:fflonk.OpeningProof", "serial:fflonk.OpeningProof:truncated", "table:has_empty", "history:vk_reuse",
                    "srs:minus1", "srs:structure", "points:reference", "points:library", "H=infinity", "digest:infinity"]
                   + ["generic_kzg:" + c for c in PAIRING],
     jobs=_jobs,
